@@ -110,6 +110,26 @@ impl Property for C10 {
         Local { open: hist::open_sigs("C10") }
     }
     fn check(&self, c: &Case, local: &mut Local, obs: &mut Obs) -> Verdict {
+        let v = judge(c, local, obs);
+        // A failure that is not a known finding must be reproducible: hash-order dependence inside the
+        // analysis (C11) can make one evaluation of a case differ from the next.
+        if let Verdict::Fail(f) = &v {
+            if !local.open.contains(&f.sig) {
+                for _ in 0..2 {
+                    let mut scratch = Obs::default();
+                    match judge(c, local, &mut scratch) {
+                        Verdict::Fail(g) if g.sig == f.sig => {}
+                        _ => return Verdict::Skip("unstable_failure(c11)".into()),
+                    }
+                }
+            }
+        }
+        v
+    }
+}
+
+fn judge(c: &Case, local: &mut Local, obs: &mut Obs) -> Verdict {
+    {
         if c.ws.files.is_empty() {
             return Verdict::Skip("empty-workspace".into());
         }
